@@ -1299,5 +1299,7 @@ pub fn run_any(prog: &Program) -> RunOut {
         Pay::U64 => run_program::<u64>(prog),
         Pay::U128 => run_program::<u128>(prog),
         Pay::PB => run_program::<PB>(prog),
+        Pay::PBIG => run_program::<PBIG>(prog),
+        Pay::PA64 => run_program::<PA64>(prog),
     }
 }
